@@ -329,4 +329,77 @@ def docWeight (d : Doc) : Nat :=
   | .ok out => (match out.totals with | some t => dueW d (groupsT t) | none => 0)
   | .error _ => 0
 
+
+/-! ### tighter weights: the actual percentages instead of their bound of 100 %
+
+Rational weights (still in half-units of the working precision).  A percentage row multiplies the
+error it inherits by |percentage|, not by 1; a fixed amount has no rounding point and inherits
+nothing; a tax combo carries |percentage| + |surcharge percentage| of its row's error into the tax.
+The line weights `lineW` are kept.  `Props.C01.calc_eq_spec_tight`. -/
+
+def ratAbs (x : Rat) : Rat := if x < 0 then -x else x
+
+/-- |percentage| as a rational -/
+def pctA (p : Pct) : Rat := ratAbs p.amount.toRat
+
+/-- rounding points of a document discount / charge row: 1 for a (non-zero) percentage, 0 for a fixed amount -/
+def adjR (x : DocAdj) : Rat :=
+  match x.percent with
+  | some p => if pctIsZero p then 0 else 1
+  | none => 0
+
+/-- factor by which such a row inherits the error of the document sum: |percentage| for a
+percentage of the sum, 0 for a percentage of an explicit base or a fixed amount -/
+def adjL (x : DocAdj) : Rat :=
+  match x.percent with
+  | some p => if pctIsZero p then 0 else (match x.base with | none => pctA p | some _ => 0)
+  | none => 0
+
+def adjRowWQ (s : Nat) (x : DocAdj) : Rat := adjR x + adjL x * (s : Rat)
+def adjWQ (s : Nat) (xs : List DocAdj) : Rat := (xs.map (adjRowWQ s)).sum
+
+/-- weight of sum − discounts + charges -/
+def total2WQ (d : Doc) : Rat :=
+  (sumW d.lines : Rat) + adjWQ (sumW d.lines) d.discounts + adjWQ (sumW d.lines) d.charges
+
+def cWQ (cb : Combo) : Rat :=
+  match cb.percent with
+  | some p => pctA p + (match cb.surcharge with | some s => pctA s | none => 0)
+  | none => 0
+
+def comboWQ (taxes : List Combo) : Rat := (taxes.map cWQ).sum
+
+def kNQ (inc : Option String) (taxes : List Combo) : Rat :=
+  match inc with
+  | none => 0
+  | some k => ((taxes.filter (fun cb => cb.cat == k)).map
+      (fun cb => match cb.percent with | some p => pctA p | none => 0)).sum
+
+def rowsWLQ (L : List Combo → Rat) (inc : Option String) (d : Doc) : Rat :=
+  (d.lines.map (fun l => ((lineW l : Rat) + (incB inc l.taxes : Rat)) * L l.taxes)).sum +
+  (d.discounts.map (fun x => (adjRowWQ (sumW d.lines) x + (incB inc x.taxes : Rat)) * L x.taxes)).sum +
+  (d.charges.map (fun x => (adjRowWQ (sumW d.lines) x + (incB inc x.taxes : Rat)) * L x.taxes)).sum
+
+def taxWQ (d : Doc) (G : Nat) : Rat := (G : Rat) + rowsWLQ comboWQ d.includes d
+def incWQ (d : Doc) (Gk : Nat) : Rat := (Gk : Rat) + rowsWLQ (kNQ d.includes) d.includes d
+def totalWQ (d : Doc) (Gk : Nat) : Rat := total2WQ d + incWQ d Gk
+def twtWQ (d : Doc) (G Gk : Nat) : Rat := totalWQ d Gk + taxWQ d G
+
+/-- an advance: 1 + |percentage| × weight of the total with tax; a fixed advance weighs nothing -/
+def advRowWQ (T : Rat) (a : Advance) : Rat :=
+  match a.percent with
+  | some p => 1 + pctA p * T
+  | none => 0
+
+def advWQ (d : Doc) (G Gk : Nat) : Rat := (d.advances.map (advRowWQ (twtWQ d G Gk))).sum
+def dueWQ (d : Doc) (G Gk : Nat) : Rat := twtWQ d G Gk + advWQ d G Gk
+
+/-- the largest tight weight of a calculated document -/
+def docWeightQ (d : Doc) : Rat :=
+  match calculate exactOps d with
+  | .ok out => (match out.totals with
+      | some t => dueWQ d (groupsT t) (incGroupsT d.includes t)
+      | none => 0)
+  | .error _ => 0
+
 end GoblVerif.Calc.Err
